@@ -6,6 +6,7 @@ import (
 	"fmt"
 	"os"
 	"strings"
+	"time"
 
 	"github.com/evanw/esbuild/pkg/api"
 )
@@ -35,7 +36,23 @@ type runResp struct {
 
 func nodeRun(n *Node, cases []runCase) [][]string {
 	var resp runResp
-	n.Call(map[string]interface{}{"op": "run", "cases": cases}, &resp)
+	if !n.CallT(map[string]interface{}{"op": "run", "cases": cases}, &resp, 30*time.Second) {
+		// a case hangs: isolate it by running the cases one by one; a hanging case is answered with
+		// TIMEOUT observations (the caller skips such cases; they are counted, never verdicts)
+		out := make([][]string, len(cases))
+		for i, cs := range cases {
+			var r1 runResp
+			if len(cases) > 1 && n.CallT(map[string]interface{}{"op": "run", "cases": []runCase{cs}}, &r1, 20*time.Second) && len(r1.R) == 1 {
+				out[i] = r1.R[0]
+			} else {
+				out[i] = make([]string, len(cs.Codes))
+				for k := range out[i] {
+					out[i][k] = "TIMEOUT"
+				}
+			}
+		}
+		return out
+	}
 	if resp.InfraError != "" || len(resp.R) != len(cases) {
 		fatalf("run op failed: %s", resp.InfraError)
 	}
@@ -338,6 +355,19 @@ func (x *xrunner) runBatch(w int, cases []xcase, seg string) {
 			}
 			continue
 		}
+		timeout := false
+		for _, o := range obs {
+			if strings.Contains(o, "TIMEOUT") {
+				timeout = true
+			}
+		}
+		if timeout {
+			c.Sub("timeout_skipped", 1)
+			if os.Getenv("VERIF_DEBUG") != "" {
+				fmt.Println("TIMEOUT", strings.ReplaceAll(p.cs.code, "\n", " "))
+			}
+			continue
+		}
 		c.Sub("executed", 1)
 		for k := 1; k < len(obs); k++ {
 			if obs[k] != obs[0] {
@@ -392,7 +422,11 @@ func runC01(c *Check) {
 		sp.segs = append(sp.segs, segDepth3(pickCtx("return")[0], red))
 	}
 	x.runSpace(sp)
-	x.runBatch(0, []xcase{{code: "globalThis.__f = async function(H, a, b, c) { return new (class { x = (await (H.p(1, a))) })().x; };", kind: "async"}}, "known-probes")
+	x.runBatch(0, []xcase{{code: "globalThis.__f = async function(H, a, b, c) { return new (class { x = (await (H.p(1, a))) })().x; };", kind: "async"},
+		{code: "globalThis.__f = function(H, a, b, c) { { function fd() { return 1 } function fd() { return 2 } } return fd(); };"},
+		{code: "globalThis.__f = function(H, a, b, c) { 'use\\x20strict'; return (function() { return typeof this })(); };"},
+		{code: "globalThis.__f = function(H, a, b, c) { ('use strict'); return (function() { return typeof this })(); };"},
+	}, "known-probes")
 	c01Literals(c, pool)
 	c01Statements(c, x)
 	c01JSX(c, pool)
